@@ -69,11 +69,24 @@ pub fn child_main(args: &[String], handler: fn(&J) -> J) -> ! {
   std::process::exit(0)
 }
 
-fn worker(kind: &str, file: &std::path::Path, from: usize, to: usize, limit: Duration, results: &Mutex<Vec<J>>) {
+/// Deaths (crashes, timeouts) one call of `run_in_children_with` waits for before it gives the remaining cases up
+/// as `{"skipped": true}`: a change that makes every other document hang would otherwise cost hours of timeouts,
+/// and the violation is established long before that.
+const DEATH_BUDGET: usize = 48;
+
+fn worker(kind: &str, file: &std::path::Path, from: usize, to: usize, limit: Duration, results: &Mutex<Vec<J>>, deaths: &std::sync::atomic::AtomicUsize) {
   // VERIF_CHILD_EXE: run the cases in another build of this binary (the release build: no overflow checks)
   let exe = std::env::var("VERIF_CHILD_EXE").map(std::path::PathBuf::from).unwrap_or_else(|_| std::env::current_exe().expect("current exe"));
   let mut next = from;
   while next < to {
+    if deaths.load(std::sync::atomic::Ordering::Relaxed) >= DEATH_BUDGET {
+      if let Ok(mut g) = results.lock() {
+        for i in next..to {
+          g[i] = json!({"skipped": true});
+        }
+      }
+      return;
+    }
     let mut child = match Command::new(&exe)
       .args(["child", kind, &file.to_string_lossy(), &(next - from).to_string(), &from.to_string()])
       .stdout(Stdio::piped())
@@ -135,6 +148,7 @@ fn worker(kind: &str, file: &std::path::Path, from: usize, to: usize, limit: Dur
       if let Ok(mut g) = results.lock() {
         g[next] = json!({"death": how});
       }
+      deaths.fetch_add(1, std::sync::atomic::Ordering::Relaxed);
       next += 1;
     }
   }
@@ -150,6 +164,7 @@ pub fn run_in_children(kind: &str, work_dir: &std::path::Path, cases: &[J], proc
 pub fn run_in_children_with(kind: &str, work_dir: &std::path::Path, n: usize, procs: usize, limit: Duration, make: &(dyn Fn(usize) -> J + Sync)) -> Vec<J> {
   let _ = std::fs::create_dir_all(work_dir);
   let results = Mutex::new(vec![J::Null; n]);
+  let deaths = std::sync::atomic::AtomicUsize::new(0);
   let procs = procs.max(1).min(n.max(1));
   let per = (n + procs - 1) / procs;
   std::thread::scope(|s| {
@@ -159,6 +174,7 @@ pub fn run_in_children_with(kind: &str, work_dir: &std::path::Path, n: usize, pr
         continue;
       }
       let results = &results;
+      let deaths = &deaths;
       let file = work_dir.join(format!("child_{}_{}_{}.ndjson", kind, std::process::id(), w));
       s.spawn(move || {
         {
@@ -167,7 +183,7 @@ pub fn run_in_children_with(kind: &str, work_dir: &std::path::Path, n: usize, pr
             let _ = writeln!(f, "{}", make(i));
           }
         }
-        worker(kind, &file, from, to, limit, results);
+        worker(kind, &file, from, to, limit, results, deaths);
         let _ = std::fs::remove_file(&file);
       });
     }
